@@ -69,5 +69,5 @@ def jobs(tier):
     J.append(kjob('mutex_2t', 'C01/h_mutex.cpp', 2, 6, ['RETRIES=0', 'YIELD_INSIDE'], desc='2 lockers, symbolic timeouts, owner yields inside'))
     J.append(kjob('mutex_2t_retry', 'C01/h_mutex.cpp', 2, 7, ['RETRIES=1', 'YIELD_INSIDE'], desc='2 lockers, one yield-retry before sleeping'))
     J.append(kjob('mutex_2t_intr', 'C01/h_mutex.cpp', 3, 7, ['RETRIES=0', 'YIELD_INSIDE', 'INTERRUPTER'], desc='2 lockers + an interrupter of locker 1'))
-    if not q: J.append(kjob('mutex_3t', 'C01/h_mutex.cpp', 3, 8, ['RETRIES=0', 'YIELD_INSIDE'], desc='3 lockers, symbolic timeouts', mem_gb=30, timeout=5000))
+    J.append(kjob('mutex_3t', 'C01/h_mutex.cpp', 3, 8, ['RETRIES=0', 'YIELD_INSIDE'], desc='3 lockers, symbolic timeouts', mem_gb=10, timeout=900))
     return J
